@@ -3168,20 +3168,22 @@ lyxp_expr_parse(const struct ly_ctx *ctx, const char *expr_str, size_t expr_len,
                 (expr->tokens[expr->used - 1] != LYXP_TOKEN_OPER_PATH) &&
                 (expr->tokens[expr->used - 1] != LYXP_TOKEN_OPER_RPATH)) {
 
-            /* Operator '*', 'or', 'and', 'mod', or 'div' */
+            /* Operator '*', 'or', 'and', 'mod', or 'div', an operator name must be the whole NCName, not its prefix */
+            ncname_len = parse_ncname(&expr_str[parsed]);
             if (expr_str[parsed] == '*') {
                 tok_len = 1;
                 tok_type = LYXP_TOKEN_OPER_MATH;
 
-            } else if (!strncmp(&expr_str[parsed], "or", 2)) {
+            } else if ((ncname_len == 2) && !strncmp(&expr_str[parsed], "or", 2)) {
                 tok_len = 2;
                 tok_type = LYXP_TOKEN_OPER_LOG;
 
-            } else if (!strncmp(&expr_str[parsed], "and", 3)) {
+            } else if ((ncname_len == 3) && !strncmp(&expr_str[parsed], "and", 3)) {
                 tok_len = 3;
                 tok_type = LYXP_TOKEN_OPER_LOG;
 
-            } else if (!strncmp(&expr_str[parsed], "mod", 3) || !strncmp(&expr_str[parsed], "div", 3)) {
+            } else if ((ncname_len == 3) && (!strncmp(&expr_str[parsed], "mod", 3) ||
+                    !strncmp(&expr_str[parsed], "div", 3))) {
                 tok_len = 3;
                 tok_type = LYXP_TOKEN_OPER_MATH;
 
